@@ -809,11 +809,17 @@ class WorkerInit(Unit):
     ignore_stmts = (r"self\.name = f.*",)
     unreachable_ok = ('cpu_affinity = [cpu_affinity]', 'cpu_affinity = sorted(set(cpu_affinity))', 'os.sched_setaffinity(0, cpu_affinity)', 'if isinstance(cpu_affinity, int):')
     canaries = (('an explicit wait of 0 is taken for "not given"', '            if batch_wait_time is None:\n                batch_wait_time = 0.01', '            if not batch_wait_time:\n                batch_wait_time = 0.01', ''),
-                ('batch size not stored', '        self.batch_size = batch_size\n', '        self.batch_size = 0\n', ''))
+                ('batch size not stored', '        self.batch_size = batch_size\n', '        self.batch_size = 0\n', ''),
+                ('hook captured at construction', '        self.batch_size = batch_size\n', "        self.batch_size = batch_size\n        self._preprocess = getattr(self, 'preprocess', None)\n", 'does not look'))
 
     def setup(self, ex):
         st = St()
-        self.me = Rec(ex, 'self')
+        def read_hook(e, s):
+            s = s.fork()
+            s.ghost['hook_read'] = True
+            return [('ok', s, z3.Const('the_preprocess_hook_at_construction', Val))]
+        self.me = Rec(ex, 'self', volatile={'preprocess': read_hook})
+        st.ghost['hook_read'] = False
         self.bs_none, self.wt_none = z3.Bool('batch_size_is_None'), z3.Bool('batch_wait_time_is_None')
         self.bs, self.wt = z3.Int('batch_size'), z3.Real('batch_wait_time')
         st.assume(self.bs >= 0, self.wt >= 0)
@@ -847,6 +853,8 @@ class WorkerInit(Unit):
         for k, s, p in outs:
             if k in ('normal', 'return'):
                 got_bs, got_wt = self.me.get(s, 'batch_size'), self.me.get(s, 'batch_wait_time')
+                ex.oblige(s, 'exit: [C09] the base constructor does not look the `preprocess` hook up: a subclass may define it as a method OR assign it as an attribute after super().__init__() '
+                             '(documented), so it is read when the worker loop starts (units get_input / _build_input_batches)', z3.BoolVal(not s.ghost['hook_read']))
                 want_wt = (z3.If(bs <= 1, z3.RealVal(0), z3.RealVal('0.01')) if wt_none else self.wt)
                 from pyvc.core import as_num
                 ex.oblige(s, 'exit: batch_size is the caller\'s (None -> 0); batch_wait_time is the caller\'s value exactly (0 stays 0); only None gets the default: 0 without batching, 0.01 with',
